@@ -84,7 +84,10 @@ def compare_graphs(orig, back, recipe, path="root", strict_arrays=True, strict_t
         if not num_equal(orig.metadata, back.metadata, strict_arrays):
             return f"{path}: metadata {back.metadata!r} != {orig.metadata!r}"
         for k in orig.nodes:
-            d = compare_graphs(orig.nodes[k], back.nodes[k], recipe["nodes"][k], f"{path}/{k}", strict_arrays, strict_types)
+            rk = recipe["nodes"][k]
+            if rk["k"] == "__alias__":
+                rk = recipe["nodes"][rk["of"]]
+            d = compare_graphs(orig.nodes[k], back.nodes[k], rk, f"{path}/{k}", strict_arrays, strict_types)
             if d:
                 return d
         fresh = V.build(recipe)
